@@ -18,7 +18,8 @@
 //! head of its message.
 //!
 //! Don't-cares / generator restrictions (each keeps the oracle inside the property statement):
-//!  * `$INCLUDE` never generated; mutants containing it are skipped (environment dependent).
+//!  * W1-W5: `$INCLUDE` never generated; mutants containing it are skipped (no file context). W6/W7
+//!    (`include.rs`) drive `$INCLUDE` on a scratch directory tree with `Parser::new(text, Some(path), ..)`.
 //!  * `\DDD` escapes and TTL unit suffixes never generated in valid texts (only in garbage).
 //!  * the first record always has an explicit TTL unless a `$TTL` precedes it.
 //!  * the origin value parse() returns is ignored.
